@@ -125,16 +125,21 @@ def updateExternal (s : Store) (cid : Nat) (ch : Chain) (external : RoundRec)
   else if strict ∧ ¬ oracle then .error .err
   else .ok { ch with links := fun x => if x = external.node then external.number else ch.links x }
 
+/-- the references the new cache round stores: in the dummy branch the previous external -/
+def dummyRefs (ch : Chain) (refs : Refs) (dummy : Bool) : Refs :=
+  if dummy then { self := refs.self, ext := ch.cacheRefs.ext } else refs
+
+/-- `assignNewGraphRound(final, cache)` after a round start: `ch'` carries the updated links -/
+def advance (ch ch' : Chain) (nrefs : Refs) (fh fstart : Nat) : Chain :=
+  { finalNumber := ch.cacheNumber, finalHash := fh, finalStart := fstart,
+    cacheNumber := ch.cacheNumber + 1, cacheRefs := nrefs, closing := none, links := ch'.links }
+
 /-- the persist half of `startNewRoundAndPersist` -/
 def persistNewRound (w : World) (cid : Nat) (ch ch' : Chain) (refs : Refs) (fh fstart : Nat)
     (dummy : Bool) : Except Fail (World × Bool) :=
-  let nrefs : Refs := if dummy then { refs with ext := ch.cacheRefs.ext } else refs
-  match storeStartNewRound w.store cid (ch.cacheNumber + 1) nrefs fstart with
+  match storeStartNewRound w.store cid (ch.cacheNumber + 1) (dummyRefs ch refs dummy) fstart with
   | none => .error .panic
-  | some s' =>
-    .ok (setChain w cid { ch' with finalNumber := ch.cacheNumber, finalHash := fh, finalStart := fstart,
-                                   cacheNumber := ch.cacheNumber + 1, cacheRefs := nrefs,
-                                   closing := none } s', dummy)
+  | some s' => .ok (setChain w cid (advance ch ch' (dummyRefs ch refs dummy) fh fstart) s', dummy)
 
 /-- `Chain.startNewRoundAndPersist` = `validateNewRound` + `StartNewRound` + assignment;
     the boolean of a success is the `dummy` flag -/
